@@ -13,6 +13,7 @@ META = {
     "design_ref": "DESIGN.md §4 C15",
     "technique": "Coq proof (induction over the shape suffix, lia with div/mod) + exhaustive small-scope correspondence evaluated by vm_compute",
     "level_text": "Theorems over all shapes/ranges on the Gallina model of _split_tensor_block_recovery: ordered partition, slab shape/alignment/cell, minimality of the piece count, empty range, non-flat rejection; the model is tied to both copies (FSDP, HSDP) by an exhaustive comparison on all shapes with numel<=36 (order<=4, order 5 with dims<=2) and all (start,end), done inside coqc.",
+    "ready": True,
     "level_note": "Trusted: Coq kernel+vm_compute; the hand-written model (checked against the code only on the enumerated/random inputs); torch narrow/view/storage_offset semantics as observed.",
 }
 
